@@ -264,6 +264,16 @@ theorem glomit_ok (p : Prims) {rec : Rec σ} {fuel} (hIH : IH rec fuel) (spec : 
     simp only [glomit, annotF]
     apply Hoare.bind (logOK_rel _) (hoare_logProbe _ id (mode sc) (by simp))
     hauto
+  | iter s vm =>
+    simp only [glomit, annotF, noRefF] at *
+    apply Hoare.bind (logOK_rel _) (Hoare.lift (logOK_rel _) _)
+    intro items
+    apply Hoare.bind (logOK_rel _)
+    · split
+      · exact zipLoop_ok (S (mode sc) _) sc rfl items _ []
+          (fun s' hs' => by rw [List.eq_of_mem_replicate hs']; exact PA_self hno)
+      · exact listLoop_ok (S (mode sc) _) s (PA_self hno) sc rfl items []
+    · hauto
 
 /-- the four mode functions and the argument mode on a plain object: sub-specs are evaluated in
     the same scope, hence in the same mode -/
